@@ -279,6 +279,17 @@ def r03c(ctx, rep):
                 if got:
                     rep.ok("R03c", key, "%s: VCell::%s field %d (%s) flows to %s" % (
                         MARKERS[mp], v, i, k, ", ".join(sorted(got))), [fn.span])
+                    if k != "ref":
+                        # the field is a payload that holds VCell values of any variant: only a total marker traces them
+                        tot = got & {"mark_vcell", "mark_continuation", "mark_lambda"}
+                        (rep.ok if tot else rep.fail)(
+                            "R03c", key + "|adequacy",
+                            "%s: the VCell values held by VCell::%s field %d reach the total marker %s" % (
+                                MARKERS[mp], v, i, ", ".join(sorted(tot))) if tot else
+                            "%s hands the VCell values held by VCell::%s (field %d, %s) only to the index-only marker Heap::mark "
+                            "after projecting one variant: values of the other reference-carrying variants stored there (a "
+                            "captured variable's LexicalEnvPtr, a closure, a continuation) are skipped and what they reference "
+                            "is reclaimed while the %s is live" % (MARKERS[mp], v, i, k, v), [fn.span])
                 elif not got_any:
                     empty.append((mp, v, i))
                 else:
